@@ -378,3 +378,131 @@ Example C12_limiter_premises_satisfiable :
     Some {| rl_ttl := 60000000000; rl_block := -60000000000; rl_max := 5 |}.
 Proof. exact limiter_premises_satisfiable. Qed.
 Print Assumptions C12_limiter_premises_satisfiable.
+
+(** ** Round 4: the block period at instant resolution
+
+    Instants and durations of the limiter are nanoseconds, as in the code;
+    nothing in [C12_block_after_limit] is rounded: it rejects every attempt
+    whose check reads an instant strictly before [a_now2 fk + block].  The
+    statements below say the same from the other side as well.
+
+    State level: an attempt is rejected exactly when its address has a record
+    at or above the limit whose deadline lies strictly after the instant the
+    check reads (then nothing but cleanup happens and the time left is the
+    exact difference). *)
+Theorem C12_blocked_iff : forall (c : rl_conf) (e : att) (s : rl_state),
+  evaluated (snd (login c e s)) = false <->
+  exists r, s !! a_addr e = Some r /\ (rl_max c <= fa_num r)%N /\ (a_now e < fa_until r)%Z.
+Proof. exact blocked_iff. Qed.
+Print Assumptions C12_blocked_iff.
+
+Theorem C12_blocked_left : forall (c : rl_conf) (e : att) (s : rl_state) (r : fa),
+  s !! a_addr e = Some r -> (rl_max c <= fa_num r)%N -> (a_now e < fa_until r)%Z ->
+  login c e s = (rl_cleanup (a_now e) s, L429 (fa_until r - a_now e)).
+Proof. exact blocked_left. Qed.
+Print Assumptions C12_blocked_left.
+
+(** History level: after a burst as in [C12_block_after_limit] and any
+    attempts of other addresses, an attempt of [a] (any password) is rejected
+    without evaluation if and only if the instant its check reads is strictly
+    before [a_now2 fk + block]: still rejected one nanosecond before the end of
+    the block period, evaluated at the end itself and from then on. *)
+Theorem C12_block_period_exact :
+  forall (c : rl_conf) (a : bytes), (1 <= rl_max c)%N ->
+  forall (s0 : rl_state) (t0 : Z) (f1 : att) (F' : list att) (fk : att) (G : list att) (x : att),
+    wf_from t0 ((f1 :: F') ++ G ++ [x]) ->
+    burst a (N.to_nat (rl_max c)) (f1 :: F') fk ->
+    a_addr f1 = a ->
+    ~ live (a_now f1) s0 a ->
+    Forall (fun e : att => a_addr e = a -> (a_now e <= a_now2 f1 + rl_ttl c)%Z) F' ->
+    Forall (fun e : att => a_addr e <> a) G ->
+    a_addr x = a ->
+    let s := fst (run_logins c s0 ((f1 :: F') ++ G)) in
+    evaluated (snd (login c x s)) = false <-> (a_now x < a_now2 fk + rl_block c)%Z.
+Proof. exact block_period_exact. Qed.
+Print Assumptions C12_block_period_exact.
+
+Theorem C12_block_period_exact_configured :
+  forall (cfg : auth_cfg) (a : bytes), (0 < ac_attempts cfg)%Z -> (0 < ac_block_min cfg)%Z ->
+  forall (s0 : rl_state) (t0 : Z) (f1 : att) (F' : list att) (fk : att) (G : list att) (x : att),
+    wf_from t0 ((f1 :: F') ++ G ++ [x]) ->
+    burst a (Z.to_nat (ac_attempts cfg)) (f1 :: F') fk ->
+    a_addr f1 = a ->
+    ~ live (a_now f1) s0 a ->
+    Forall (fun e : att => a_addr e = a -> (a_now e <= a_now2 f1 + minute_ns)%Z) F' ->
+    Forall (fun e : att => a_addr e <> a) G ->
+    a_addr x = a ->
+    let s := fst (run_logins_opt (mk_limiter cfg) s0 ((f1 :: F') ++ G)) in
+    evaluated (snd (login_opt (mk_limiter cfg) x s)) = false <-> (a_now x < a_now2 fk + block_dur cfg)%Z.
+Proof. exact block_period_exact_configured. Qed.
+Print Assumptions C12_block_period_exact_configured.
+
+Example C12_block_exact_premises_satisfiable :
+  let o := {| a_now := sec 500; a_now2 := sec 500; a_addr := [120]%N; a_hdr := None; a_trusted := false; a_ok := false |} in
+  let x off := edge_att (edge_end + off) true in
+  wf_from 0 (edge_burst ++ [o] ++ [x (-1)]) /\ wf_from 0 (edge_burst ++ [o] ++ [x 0]) /\
+  burst sliding_addr (N.to_nat (rl_max sliding_conf)) edge_burst (edge_att (sec 2) false) /\
+  ~ live (sec 0) ∅ sliding_addr /\
+  Forall (fun e => a_addr e = sliding_addr -> (a_now e <= sec 0 + rl_ttl sliding_conf)%Z) (tl edge_burst) /\
+  Forall (fun e => a_addr e <> sliding_addr) [o] /\
+  (a_now (x (-1)) < sec 2 + rl_block sliding_conf)%Z /\ ~ (a_now (x 0) < sec 2 + rl_block sliding_conf)%Z /\
+  snd (run_logins sliding_conf ∅ (edge_burst ++ [o] ++ [x (-1)])) = [L403; L403; L403; L403; L429 1] /\
+  snd (run_logins sliding_conf ∅ (edge_burst ++ [o] ++ [x 0])) = [L403; L403; L403; L403; L200].
+Proof. exact block_exact_premises_satisfiable. Qed.
+Print Assumptions C12_block_exact_premises_satisfiable.
+
+(** handleLogin's blocked test is the duration itself ([blk_code]: [left >
+    0]); [login_blk] has the test as a parameter. *)
+Theorem C12_blocked_test_is_exact : forall c h s, run_logins_blk blk_code c s h = run_logins c s h.
+Proof. exact run_logins_blk_code. Qed.
+Print Assumptions C12_blocked_test_is_exact.
+
+(** The test made on the whole seconds that go into the Retry-After header
+    ([blk_trunc]: [int(left.Seconds()) > 0]) differs from it exactly during the
+    last fractional second of the block ... *)
+Theorem C12_truncated_test_differs_iff : forall lft : Z,
+  blk_trunc lft <> blk_code lft <-> (0 < lft < second_ns)%Z.
+Proof. exact trunc_differs_iff. Qed.
+Print Assumptions C12_truncated_test_differs_iff.
+
+(** ... and breaks the property there: limit 3 reached at 2 s, block 900 s
+    (ends at 902 s; the premises of [C12_block_after_limit] hold).  The code
+    rejects the correct password 1 s, 999 ms, 600 ms and 1 ns before the end
+    and evaluates it at the end and 1 ns after; with the truncated test the
+    correct password logs in 999 ms, 600 ms and 1 ns before the end, a wrong
+    one is one more guess per block period, and a block of 999 ms never
+    holds.  Observation, not a violation: inside the last second the code's
+    429 carries [Retry-After: 0]. *)
+Example C12_truncated_seconds_refuted :
+  let x off ok := edge_att (edge_end + off) ok in
+  let last l := nth 3 l L403 in
+  wf_from 0 (edge_burst ++ [] ++ [x (- ms 600) true]) /\
+  burst sliding_addr (N.to_nat (rl_max sliding_conf)) edge_burst (edge_att (sec 2) false) /\
+  ~ live (sec 0) ∅ sliding_addr /\
+  Forall (fun e => a_addr e = sliding_addr -> (a_now e <= sec 0 + rl_ttl sliding_conf)%Z) (tl edge_burst) /\
+  (a_now (x (- ms 600) true) < sec 2 + rl_block sliding_conf)%Z /\
+  map (fun off => last (snd (run_logins sliding_conf ∅ (edge_burst ++ [x off true]))))
+      [- sec 1; - ms 999; - ms 600; -1; 0; 1] =
+    [L429 (sec 1); L429 (ms 999); L429 (ms 600); L429 1; L200; L200] /\
+  map (fun off => retry_after (last (snd (run_logins sliding_conf ∅ (edge_burst ++ [x off true])))))
+      [- sec 1 - 1; - sec 1; - ms 999; - ms 600; -1; 0] =
+    [Some 1; Some 1; Some 0; Some 0; Some 0; None] /\
+  map (fun off => last (snd (run_logins_blk blk_trunc sliding_conf ∅ (edge_burst ++ [x off true]))))
+      [- sec 1; - ms 999; - ms 600; -1; 0; 1] =
+    [L429 (sec 1); L200; L200; L200; L200; L200] /\
+  last (snd (run_logins_blk blk_trunc sliding_conf ∅ (edge_burst ++ [x (- ms 600) false]))) = L403 /\
+  snd (run_logins_blk blk_trunc {| rl_ttl := sec 60; rl_block := ms 999; rl_max := 1 |} ∅
+         [edge_att 0 false; edge_att 1 false; edge_att 2 true]) = [L403; L403; L200] /\
+  snd (run_logins {| rl_ttl := sec 60; rl_block := ms 999; rl_max := 1 |} ∅
+         [edge_att 0 false; edge_att 1 false; edge_att 2 true]) = [L403; L429 (ms 999 - 1); L429 (ms 999 - 2)].
+Proof. exact trunc_seconds_refuted. Qed.
+Print Assumptions C12_truncated_seconds_refuted.
+
+(** The Retry-After value of a 429: the time left in whole seconds, rounded
+    down; it is 0 exactly when less than a second is left. *)
+Theorem C12_retry_after_value : forall lft : Z, (0 < lft)%Z ->
+  (0 <= retry_after_secs lft)%Z /\
+  (retry_after_secs lft * second_ns <= lft < (retry_after_secs lft + 1) * second_ns)%Z /\
+  (retry_after_secs lft = 0 <-> lft < second_ns)%Z.
+Proof. exact retry_after_value. Qed.
+Print Assumptions C12_retry_after_value.
